@@ -1,0 +1,85 @@
+//! Observation hooks for external runtime monitors.
+//!
+//! Compiled only with the cargo feature `verif-hooks` (off by default). The hooks never
+//! influence a return value: they append events to a thread-local log which a monitor drains,
+//! and they enforce optional *step budgets* so that a runaway loop becomes a panic with a typed
+//! payload (which the monitor catches) instead of exhausting memory or time.
+
+use std::cell::RefCell;
+use std::collections::HashMap;
+
+/// One observed event: a static site name and two integer attributes.
+#[derive(Debug, Clone, PartialEq, Eq)]
+pub struct Event {
+    pub site: &'static str,
+    pub a: u64,
+    pub b: u64,
+}
+
+/// Panic payload raised when a site is hit more often than its budget allows.
+#[derive(Debug, Clone, PartialEq, Eq)]
+pub struct BudgetExceeded {
+    pub site: &'static str,
+    pub budget: u64,
+}
+
+#[derive(Default)]
+struct Log {
+    recording: bool,
+    events: Vec<Event>,
+    budgets: HashMap<&'static str, u64>,
+    counts: HashMap<&'static str, u64>,
+}
+
+thread_local! {
+    static LOG: RefCell<Log> = RefCell::new(Log::default());
+}
+
+/// Start recording events on this thread (clears previous events and counters).
+pub fn start() {
+    LOG.with(|l| {
+        let mut l = l.borrow_mut();
+        l.recording = true;
+        l.events.clear();
+        l.counts.clear();
+    });
+}
+
+/// Stop recording, remove all budgets and return the recorded events.
+pub fn drain() -> Vec<Event> {
+    LOG.with(|l| {
+        let mut l = l.borrow_mut();
+        l.recording = false;
+        l.budgets.clear();
+        l.counts.clear();
+        std::mem::take(&mut l.events)
+    })
+}
+
+/// Allow at most `budget` hits of `site` until the next [`drain`].
+pub fn set_budget(site: &'static str, budget: u64) {
+    LOG.with(|l| {
+        l.borrow_mut().budgets.insert(site, budget);
+    });
+}
+
+/// Called from the instrumented sites.
+pub fn emit(site: &'static str, a: u64, b: u64) {
+    let exceeded = LOG.with(|l| {
+        let mut l = l.borrow_mut();
+        if l.recording {
+            l.events.push(Event { site, a, b });
+        }
+        if let Some(&budget) = l.budgets.get(site) {
+            let c = l.counts.entry(site).or_insert(0);
+            *c += 1;
+            if *c > budget {
+                return Some(budget);
+            }
+        }
+        None
+    });
+    if let Some(budget) = exceeded {
+        std::panic::panic_any(BudgetExceeded { site, budget });
+    }
+}
